@@ -44,6 +44,7 @@ func Injective(uf string)                          { sym() }
 func UFBytes(name string, n int, in ...[]byte) []byte { sym(); return nil }
 func UFBool(name string, in ...[]byte) bool        { sym(); return false }
 func Par(f, g func())                              { sym() }
+func Permute(on bool)                               { sym() }
 func Yield()                                       { sym() }
 func Note(s string)                                { sym() }
 
